@@ -281,7 +281,7 @@ func c14Run(tb *testing.T, t *rapid.T, vk *vkCtx, protos []cpxProto) {
 	proto := protos[rapid.IntRange(0, len(protos)-1).Draw(t, "proto")]
 	interval := rapid.SampledFrom([]uint64{4, 8}).Draw(t, "interval")
 	trackerdb.TrieMemoryConfig.NodesCountPerPage = rapid.SampledFrom([]int64{116, 116, 116, 16, 8}).Draw(t, "trieNodesPerPage")
-	nExtra := rapid.IntRange(1, 3).Draw(t, "nExtra")
+	nExtra := rapid.SampledFrom([]int{2, 1, 3, 2}).Draw(t, "nExtra")
 
 	primarySpec := c14DrawSpec(t, "node", interval)
 	primarySpec.Interval = interval
@@ -321,8 +321,9 @@ func c14Run(tb *testing.T, t *rapid.T, vk *vkCtx, protos []cpxProto) {
 	nBlocks := int(firstR+2*interval) + 8 + rapid.IntRange(0, 3).Draw(t, "extraBlocks")
 
 	ops := []string{"none", "none", "none", "none", "commit", "commit", "reload", "reopen", "park", "flush", "prune"}
+	var script cpxScript
 	for b := 0; b < nBlocks; b++ {
-		info := w.StepBlock(t, -1)
+		info := cpxScriptedBlock(w, t, &script, 4)
 		for _, cn := range c.nodes[1:] {
 			cpxFeed(t, cn.n, info.Block)
 		}
@@ -433,6 +434,18 @@ func c14Run(tb *testing.T, t *rapid.T, vk *vkCtx, protos []cpxProto) {
 	tip := w.Model.Tip()
 	if len(tip.Kv) > 0 {
 		vk.Label("state:has-kv")
+	}
+	kvDel, resDel := 0, 0
+	for r := basics.Round(1); r <= w.Model.Latest(); r++ {
+		ch := w.Model.At(r).Changes
+		kvDel += ch.KvDeleted
+		resDel += ch.Uncreated + ch.Closed
+	}
+	if kvDel > 0 {
+		vk.Label("history:kv-deleted")
+	}
+	if resDel > 0 {
+		vk.Label("history:account-closed-or-creatable-deleted")
 	}
 	vk.Add("root-pairwise-comparisons", int64(c.rootCmp))
 	vk.Add("root-model-comparisons", int64(c.modelCmp))
